@@ -826,16 +826,24 @@ def closure_of_arg(ctx, body, e):
 def check_preload_send(ctx, rule, b, bb, t, where, key):
     """the preload iterates all nodes of the walked structure filtered only by COUNTS[id] == 0"""
     m, fl = ctx.model, ctx.model.flow
-    uses = fl.closure_uses(b)
-    if len(uses) != 1:
-        ctx.unverifiable(rule, "preload-consumer|%s" % key, where, "preload send is not inside a closure passed to exactly one iterator consumer")
-        return
-    pb, ubb, ut, ai = uses[0]
-    cons = callee_path(ut)
-    if cons not in ("std::iter::Iterator::try_for_each", "std::iter::Iterator::for_each"):
-        ctx.unverifiable(rule, "preload-consumer|%s" % key, where, "unknown preload consumer %s" % cons)
-        return
-    chain = iterator_chain(ctx, pb, expr_operand(pb, ut["args"][0]))
+    lr = loop_region(ctx, b, bb)
+    if lr is not None and lr["driver"] == "sync":
+        if lr["early_exits"]:
+            ctx.bad(rule, "preload-early-exit|%s" % key, where, "the preload loop can be left before all zero-count functions were queued")
+            return
+        pb = b
+        chain = iterator_chain(ctx, b, lr["iter_expr"])
+    else:
+        uses = fl.closure_uses(b)
+        if len(uses) != 1:
+            ctx.unverifiable(rule, "preload-consumer|%s" % key, where, "preload send is not inside a closure passed to exactly one iterator consumer nor in a loop over an iterator")
+            return
+        pb, ubb, ut, ai = uses[0]
+        cons = callee_path(ut)
+        if cons not in ("std::iter::Iterator::try_for_each", "std::iter::Iterator::for_each"):
+            ctx.unverifiable(rule, "preload-consumer|%s" % key, where, "unknown preload consumer %s" % cons)
+            return
+        chain = iterator_chain(ctx, pb, expr_operand(pb, ut["args"][0]))
     filters = []
     src = None
     bad = []
@@ -889,50 +897,88 @@ def check_preload_send(ctx, rule, b, bb, t, where, key):
     return
 
 
+SYNC_DRIVERS = ("std::iter::Iterator::next", "daggy::Walker::walk_next", "daggy::petgraph::visit::Topo::<N, VM>::next")
+
+
+def _resolve_iter_local(body, e):
+    """follow `iter = into_iter(x)` / `let mut it = expr` single assignments"""
+    for _ in range(4):
+        e = strip_refs(e)
+        if e.kind == "local":
+            ds = [d for d in get_defs(body).of(e[1])]
+            if len(ds) == 1 and ds[0][0] == "stmt" and ds[0][3]["rv"]["k"] == "use":
+                e = expr_operand(body, ds[0][3]["rv"]["op"])
+                continue
+            if len(ds) == 1 and ds[0][0] == "call":
+                from analysis import expr_call
+                e = expr_call(body, ds[0][1], ds[0][3])
+                continue
+        if e.kind == "call" and e[1] == "std::iter::IntoIterator::into_iter":
+            e = e[2][0]
+            continue
+        break
+    return strip_refs(e)
+
+
 def loop_region(ctx, body, bb):
-    """If bb lies in a `for`-style loop (natural loop whose header region calls
-    Iterator::next), returns {"blocks", "next_bb", "iter_expr", "early_exits"}."""
+    """If bb lies in a loop driven by an iterator-like source -- `for x in it`,
+    `while let Some(x) = it.next() / walker.walk_next(g) / topo.next(g)`, or
+    `while let Some(x) = stream.next().await / rx.recv().await` -- returns
+    {"blocks", "iter_expr", "early_exits", "header", "driver", "graph_arg"}."""
+    from analysis import NEXT_ITEM_FUTURE
     best = None
     for (src, hdr) in body.back_edges():
         loop = body.natural_loop(src, hdr)
         if bb not in loop:
             continue
-        nexts = [x for x in loop if body.blocks[x]["term"]["k"] == "call" and
-                 callee_path(body.blocks[x]["term"]) == "std::iter::Iterator::next" and
-                 body.blocks[x]["term"]["sp"].get("desugar") == "ForLoop"]
-        if not nexts:
+        cand = None
+        for x in sorted(loop):
+            t = body.blocks[x]["term"]
+            if t["k"] != "call":
+                continue
+            p = callee_path(t)
+            if p in SYNC_DRIVERS and body.dominates(x, bb):
+                cand = ("sync", x, t, t["dest"]["l"])
+        if cand is None:
+            for a in awaits(body):
+                if a.into_bb in loop and a.ready_bb is not None and body.dominates(a.ready_bb, bb) and a.operand["k"] != "const":
+                    d = get_defs(body).unique_full(a.operand["pl"]["l"])
+                    if d and d[0] == "call" and callee_path(d[3]) in NEXT_ITEM_FUTURE:
+                        cand = ("await", d[1], d[3], a.result_local)
+        if cand is None:
             continue
-        if best is None or len(loop) < len(best["blocks"]):
-            nb = nexts[0]
-            t = body.blocks[nb]["term"]
-            it = strip_refs(expr_operand(body, t["args"][0]))
-            # iter local -> into_iter(x)
-            src_e = it
-            if it.kind == "local":
-                ds = get_defs(body).of(it[1])
-                for kind, dbb, si, x in ds:
-                    if kind == "stmt" and x["rv"]["k"] == "use":
-                        src_e = strip_refs(expr_operand(body, x["rv"]["op"]))
-            if src_e.kind == "call" and src_e[1] == "std::iter::IntoIterator::into_iter":
-                src_e = strip_refs(src_e[2][0])
-            # exits: edges leaving the loop from blocks other than the `None` arm of next()'s switch
-            sw = body.blocks[t["target"]]["term"] if t["target"] is not None else None
-            none_arm = None
-            if sw and sw["k"] == "switch":
-                for v, tb in sw["targets"]:
-                    if v == "0":
-                        none_arm = tb
-            early = []
-            for x in loop:
-                for s_ in body.succs(x):
-                    if s_ not in loop and x != none_arm and not (x == t["target"] and s_ == none_arm):
-                        if body.blocks[s_]["term"]["k"] == "unreachable":
-                            continue
-                        early.append((x, s_))
-            blocks = set(loop)
-            if none_arm is not None:
-                blocks.discard(none_arm)
-            best = {"blocks": blocks, "next_bb": nb, "iter_expr": src_e, "early_exits": early, "header": hdr}
+        if best is not None and len(loop) >= len(best["blocks"]) + (1 if best.get("none_arm") is not None else 0):
+            continue
+        kind, cbb, t, res_local = cand
+        it = _resolve_iter_local(body, expr_operand(body, t["args"][0]))
+        # the arm on which the source is exhausted: switch on discriminant(result) value 0
+        none_arm = None
+        for x in sorted(loop):
+            tt = body.blocks[x]["term"]
+            if tt["k"] == "switch" and tt["discr"]["k"] != "const":
+                d = get_defs(body).unique_full(tt["discr"]["pl"]["l"])
+                if d and d[0] == "stmt" and d[3]["rv"]["k"] == "discr" and d[3]["rv"]["pl"]["l"] == res_local and not d[3]["rv"]["pl"]["p"]:
+                    for v, tb in tt["targets"]:
+                        if v == "0":
+                            none_arm = tb
+                    if none_arm is None and [v for v, _ in tt["targets"]] == ["1"]:
+                        none_arm = tt["otherwise"]
+                    sw_bb = x
+        early = []
+        for x in loop:
+            for s_ in body.succs(x):
+                if s_ in loop:
+                    continue
+                if x == none_arm or s_ == none_arm:
+                    continue
+                if body.blocks[s_]["term"]["k"] == "unreachable":
+                    continue
+                early.append((x, s_))
+        blocks = set(loop)
+        blocks.discard(none_arm)
+        graph_arg = t["args"][1] if kind == "sync" and len(t["args"]) > 1 else None
+        best = {"blocks": blocks, "next_bb": cbb, "iter_expr": it, "early_exits": early, "header": hdr, "driver": kind,
+                "none_arm": none_arm, "graph_arg": graph_arg}
     return best
 
 
@@ -1019,6 +1065,8 @@ def S3(ctx, rule="S3"):
                     if it:
                         g2 = sources_of_expr(ctx, it[0][1], it[0][2][2][1])
                         same_g = g2 == gsrc
+                    elif lr is not None and lr.get("graph_arg") is not None:
+                        same_g = fl.sources_operand(b, lr["graph_arg"]) == gsrc
                     if not id_ok:
                         why = "children() is not taken of the id received from the DONE channel: %s" % [fmt_src(s) for s in idsrc]
                     elif not st_ok:
@@ -1219,7 +1267,7 @@ def S5(ctx, rule="S5"):
                   "the id sent on DONE is the id dequeued from READY (all callers)",
                   "id sent on DONE has other sources: %s" % [fmt_src(x) for x in idsrc])
         n += 1
-    # FnRef construction
+    # FnRef construction (directly, or through a crate-local constructor whose arguments are checked at its call sites)
     for (b, bb, si, s) in m.fnref_sites:
         ops = s["rv"]["ops"]
         fields = s["rv"]["fields"]
@@ -1229,21 +1277,30 @@ def S5(ctx, rule="S5"):
         if idop is None or fnop is None:
             ctx.unverifiable(rule, "fnref-fields", where, "FnRef fields not recognised")
             continue
-        idsrc = fl.sources_operand(b, idop)
-        ok = m.is_ready_item(idsrc)
-        fe = expr_operand(b, fnop)
-        lk = [c for c in walk_expr(fe) if c.kind == "call" and c[1] in LOOKUP_FNS]
-        ok2 = False
-        if lk:
-            idv = node_index_arg(lk[-1][2][1]) or strip_refs(lk[-1][2][1])
-            ok2 = m.is_ready_item(sources_of_expr(ctx, b, idv))
-            csrc = sources_of_expr(ctx, b, lk[-1][2][0])
-            ok3, why = lookup_container_ok(ctx, csrc, roles)
-            ok2 = ok2 and ok3
-        n += 1
-        ctx.check(ok and ok2, rule, "fnref|%s" % short(b.id), where,
-                  "FnRef { fn_id, fn } is built from the id dequeued from READY and the function looked up with that id",
-                  "FnRef is built from id sources %s / lookup %s" % ([fmt_src(x) for x in idsrc], fmt_expr(fe, b)))
+        sites = [(b, idop, fnop, where)]
+        ide, fne = strip_refs(expr_operand(b, idop)), strip_refs(expr_operand(b, fnop))
+        if b.kind == "fn" and ide.kind == "arg" and fne.kind == "arg":
+            sites = []
+            for (cb, cbb, t) in fl.call_sites().get(b.id, []):
+                if fb.is_test_body(cb):
+                    continue
+                sites.append((cb, t["args"][ide[1] - 1], t["args"][fne[1] - 1], m.where(cb, cbb)))
+        for (sb, idop_, fnop_, swhere) in sites:
+            idsrc = fl.sources_operand(sb, idop_)
+            ok = m.is_ready_item(idsrc)
+            fe = expr_operand(sb, fnop_)
+            lk = [c for c in walk_expr(fe) if c.kind == "call" and c[1] in LOOKUP_FNS]
+            ok2 = False
+            if lk:
+                idv = node_index_arg(lk[-1][2][1]) or strip_refs(lk[-1][2][1])
+                ok2 = m.is_ready_item(sources_of_expr(ctx, sb, idv))
+                csrc = sources_of_expr(ctx, sb, lk[-1][2][0])
+                ok3, why = lookup_container_ok(ctx, csrc, roles)
+                ok2 = ok2 and ok3
+            n += 1
+            ctx.check(ok and ok2, rule, "fnref|%s" % short(sb.id), swhere,
+                      "FnRef { fn_id, fn } is built from the id dequeued from READY and the function looked up with that id",
+                      "FnRef is built from id sources %s / lookup %s" % ([fmt_src(x) for x in idsrc], fmt_expr(fe, sb)))
     # interrupt mapping
     if m.interruptible:
         S5_interrupt_map(ctx, rule)
